@@ -137,5 +137,6 @@ void run_rounding ();
 void run_repeated_keys ();
 void run_setrotation ();
 void run_slerp ();
+void run_reused (); // c10_dirty.cpp: stage reused-objects
 
 } // namespace c10
